@@ -78,9 +78,12 @@ def c09(tier, vseed):
         plans.append((["-Zmiri-preemption-rate=0.05", "-Zmiri-compare-exchange-weak-failure-rate=0.8"],
                       ["c09", vseed, 1, 2, 5, "face_integrals_sym"], 100, 103))
     else:
-        nb = int(os.environ.get("VERIF_E2_INPUTS", "12"))
-        per = int(os.environ.get("VERIF_E2_SEEDS", "32"))
-        ops = ["build", "integrator_to_voronoi", "face_integrals_sym", "with_faces", "cell_integrals", "face_integrals"]
+        # Miri costs 20-60 s of CPU per seed for 5-8 generators, and `with_faces` (seven parallel
+        # sections plus the integrals on the result) ten times that: few seeds for it, more for the rest
+        nb = int(os.environ.get("VERIF_E2_INPUTS", "10"))
+        per = int(os.environ.get("VERIF_E2_SEEDS", "24"))
+        ops = ["build", "integrator_to_voronoi", "face_integrals_sym", "cell_integrals", "build", "face_integrals",
+               "with_faces", "face_integrals_sym", "integrator_to_voronoi", "build"]
         rates = ["0.01", "0.1", "0.5"]
         for i in range(nb):
             flags = ["-Zmiri-preemption-rate=" + rates[i % 3]]
@@ -88,7 +91,11 @@ def c09(tier, vseed):
                 flags.append("-Zmiri-compare-exchange-weak-failure-rate=0.8")
             if i % 4 == 2:
                 flags.append("-Zmiri-address-reuse-cross-thread-rate=0.5")
-            plans.append((flags, ["c09", vseed, i, 2 + i % 3, 6 + (i % 3) * 2, ops[i % len(ops)]], i * 1000, i * 1000 + per))
+            op = ops[i % len(ops)]
+            heavy = op == "with_faces"
+            n = 5 if heavy else 5 + (i % 4)
+            seeds = max(4, per // 3) if heavy else per
+            plans.append((flags, ["c09", vseed, i, 2 + i % 3, n, op], i * 1000, i * 1000 + seeds))
     results, viols = [], []
     execs = 0
     flagcount = {}
